@@ -19,7 +19,11 @@ func main() {
 	dump := flag.Bool("dump", false, "dump failing queries")
 	prop := flag.String("property", "", "property id: run the property check (see check.go)")
 	tier := flag.String("tier", "quick", "quick|thorough")
+	replay := flag.String("replay", "", "replay file of a recorded violation")
 	flag.Parse()
+	if *replay != "" {
+		os.Exit(runReplay(*repo, *replay))
+	}
 	if *prop != "" {
 		os.Exit(runProperty(*repo, *specs, *prop, *tier, *out))
 	}
